@@ -1,3 +1,3 @@
-CONSTANT Want = {"C13_NoHang", "C13_AccelEqualsFull", "C13_DigestCacheEqualsFull", "C13_IgnoreCacheWithinFull", "C13_AccelDescribesDisk", "Stats"}
+CONSTANT Want = {"C13_NoHang", "C13_AccelEqualsFull", "C13_DigestCacheEqualsFull", "C13_IgnoreCacheWithinFull", "C13_IgnoreCacheMatchesCold", "C13_AccelDescribesDisk", "Stats"}
 SPECIFICATION TSpec
 CHECK_DEADLOCK FALSE
